@@ -697,6 +697,9 @@ func execInBubble(w *World, plan *Plan, trace bool) {
 	s.trace = os.Getenv("GOSIM_SCHEDTRACE") != ""
 	r := &Run{Plan: plan, World: w, Rng: rand.New(rand.NewSource(int64(mix(seed, 3)))),
 		keep: trace, start: time.Now()}
+	if plan.P("pool_reuse", 0) == 1 {
+		r.Add("runs_with_pool_reuse", 1)
+	}
 	if !s.disabled {
 		ready := make(chan struct{})
 		go schedLoop(ready)
